@@ -195,6 +195,34 @@ def check_install_fill(F, rep):
                   "%s: a rejected command returns with the freshly installed, empty perspective still in self.perspective; the next "
                   "flush/commit calls storage.write(empty) -> StorageError::EmptyPerspective and earlier accepted commands are lost" % short(f.path),
                   crs[0].site())
+        # ... and conversely the in-flight perspective is dropped only when it is known to hold nothing: the test
+        # must be about the perspective's own head (`parent`), never about the rejected command (which revert
+        # has just removed, so it is never included)
+        un_err = [s for s in f.field_stores("perspective") if s.bb in f.reachable(err_t)]
+        if un_err:
+            okd = bool(inc)
+            for x in inc:
+                og = f.origins(x.args[1], through_calls=())
+                okd = okd and ("argname:parent" in og) and ("argname:command" not in og) and ("call:id" not in og)
+            rep.check(okd, "%s|drop-tests-own-head" % short(f.path), "K6 provenance",
+                      "the emptiness test that licenses dropping the in-flight perspective asks whether it includes `parent` (its own head)",
+                      "%s: the in-flight perspective is dropped on a rejection after testing something other than its own head `parent` (the rejected command is never included "
+                      "after revert): accepted commands that live only in the perspective are discarded with it and their tips are lost from the committed head set" % short(f.path),
+                      inc[0].site() if inc else crs[0].site())
+            # every un-install on this path sits on the includes == false edge
+            nokeep = set()
+            for x in inc:
+                for st in f.stmts():
+                    if st.rv_kind() == "un" and st.rv[1] == "Not" and Operand(st.rv[2]).place is not None and Operand(st.rv[2]).place.local == x.dest.local:
+                        for b in range(f.nblocks):
+                            sw = f.switch_on(b)
+                            if sw and sw[0].place is not None and sw[0].place.local == st.place.local:
+                                nokeep.add(sw[2])
+                e = f.outcome_edges(x, passthrough=("Not::not",))
+                if "false" in e:
+                    nokeep.add(e["false"][1])
+            rep.check(all(any(t is not None and f.dominates(t, s.bb) for t in nokeep) for s in un_err), "%s|drop-only-when-empty" % short(f.path), "K2 guarded-by",
+                      "self.perspective is cleared on the rejection path only on the `includes(parent) == false` edge", site=crs[0].site())
         # the parent tip is removed only after a child was added (Ok path), not when the perspective is created
         rem = [x for x in f.calls if x.name == "remove" and f.derives_from_field(x.args[0], "heads")]
         acs = pat.trait_calls(f, "storage::Perspective", "add_command")
